@@ -37,9 +37,7 @@ def main():
     env.pop("PYTHONHASHSEED", None)
     for pid, n in jobs:
         sh("git -C %s checkout -q -- . && git -C %s clean -fdq" % (WT, WT))
-        patch = "/tmp/seed/%s/patch%d.diff" % (pid, n)
-        if not os.path.exists(patch):
-            patch = "/verif/seeded/%s-%d/patch.diff" % (pid, n)
+        patch = "/verif/seeded/%s-%d/patch.diff" % (pid, n)
         rc, out = sh("git -C %s apply %s" % (WT, patch))
         if rc:
             print(pid, n, "patch does not apply", out[-200:])
